@@ -43,6 +43,10 @@ def jobs(tier):
     J.append(seq(len=9 if q else 10, keys=1, hmap=0, alpha_seq=1, nresize=2, flags=3, count_commit_order=0, init=8, nosettle=1, workers=8))
     J.append(seq(len=8, keys=2, hmap=1, alpha_seq=1, nresize=4, flags=3, count_commit_order=0, init=4, nosettle=1, workers=8))
     J.append(seq("1,0,0,0", len=4, keys=2, hmap=1, alpha_seq=1, nresize=6, flags=3, count_commit_order=0, workers=8))
+    # ... and finally scheduled at the end of the sequence: whatever target the unserved counter-driven requests left behind (e.g. a
+    # count that stepped over a power of two), the worker's resize terminates and leaves a consistent table
+    for mx in (16, 0):
+        J.append(seq(len=10, keys=1, hmap=0, alpha_seq=1, nresize=2, flags=3, count_commit_order=0, init=1, nosettle=2, maxb=mx, workers=4))
     # (b) concurrent
     rd = prog((K_LOOKUP, 0), (K_LOOKUP, 1), (K_WALKALL, 0))
     for init, n in ((1, 4), (1, 3), (2, 8), (4, 1), (4, 2), (8, 0), (2, 5)):
